@@ -271,6 +271,23 @@ def check_slice(lib, res):
                 vals_ = tuple(resolve(op) for op in st_["rv"]["ops"])
                 if all(v is not None for v in vals_):
                     env0[st_["place"]["l"]] = ("tuple", vals_)
+        # flags computed once before the loop (`let ascending = step > 0;`): their value on entry, if every way in agrees
+        pre = [p for p in toloop if p.leaf[1] == h or p.leaf[1] in cs]
+        pnames = {Aff.var(nm_).key() if hasattr(Aff.var(nm_), "key") else repr(Aff.var(nm_)) for nm_ in names if nm_}
+        for l in range(b.arg_count + 1, len(b.locals)):
+            defs = b.assigns_to(l)
+            if not defs or any(d[0] in cs for d in defs):
+                continue
+            vals_ = {repr(p.env.get(l)) for p in pre}
+            v0 = pre[0].env.get(l) if pre else None
+            if len(vals_) != 1 or v0 is None:
+                continue
+            if b.local_ty(l) == "i32":
+                # a loop-invariant copy of a parameter (the helper's own `step`) is that parameter
+                if isinstance(v0, Aff) and repr(v0) in {repr(Aff.var(nm_)) for nm_ in names if nm_}:
+                    env0[l] = v0
+            elif l not in env0:
+                env0[l] = v0
         w3 = W2(b, call_model=model)
         w3.init_env = lambda env0=env0: dict(env0)
         lp = w3.run(start=h, stop_at_loops=False)
